@@ -96,6 +96,7 @@ class C01(InputProp):
             fams.append(Product(LANGS, W.SIGMA, name="lang-flat"))
             fams.append(Product(LANGS, [c[0] for c in W.CTX], core[:20], name="lang-ctx"))
             fams.append(Product(W.SIGMA, [f[0] for f in FRAMES[:2]], name="pump"))
+            fams.append(Product(W.SIGMA, ["a"], [f[0] for f in FRAMES[:1]], name="pump2"))  # lexeme + word: separated repetitions
         else:
             nontag = [x for x in W.SIGMA if not (x.startswith("<") and x[1:2].isalpha() or x.startswith("</"))] + \
                      ["<b>", "</b>", "<div>", "</div>", "<ref>", "</ref>", "<table>", "<td>", "<li>", "<nowiki>", "<math>", "<gallery>"]
@@ -107,6 +108,7 @@ class C01(InputProp):
             fams.append(Product(LANGS, W.SIGMA, name="lang-flat"))
             fams.append(Product(LANGS, [c[0] for c in W.CTX], W.SIGMA, name="lang-ctx"))
             fams.append(Product(W.SIGMA, [f[0] for f in FRAMES], name="pump"))
+            fams.append(Product(W.SIGMA, ["a", " ", "\n"], [f[0] for f in FRAMES[:2]], name="pump2"))
             fams.append(Product(core, core, [f[0] for f in FRAMES[:2]], name="pump2"))
         self.space = Concat(*fams)
         self.ctx = dict(W.CTX)
